@@ -338,8 +338,35 @@ func vShapeWords(shape []int) []string {
 
 // vSmallClassifier builds corpus number ci at threshold t. Document j is
 // License/D<j>/license.txt.
+// vSmallFiller > 0: a filler document of that many distinct words is added first, so that the
+// vocabulary's token ids start behind it (dictionary-size dependent behaviour, e.g. ids as runes).
+var vSmallFiller int
+
+func vFillerWord(i int) string {
+	return "f" + string(rune('a'+i%26)) + string(rune('a'+(i/26)%26)) + string(rune('a'+(i/676)%26)) + string(rune('a'+(i/17576)%26)) + "y"
+}
+
+// vSmallSettings applies the vocab / dictoffset parameters of a small-scope job (process wide: a
+// worker process runs one harness).
+func vSmallSettings(vocab string, filler int) {
+	if vocab == "accented" {
+		// 2- and 3-byte letters: byte length and rune count of a word differ
+		vSmallVocab = []string{"\u00e4a", "b\u00e9", "\u4e16c"}
+		vSmallAlphabet = []string{vSmallVocab[0], vSmallVocab[1], vSmallVocab[2], "zqoov"}
+	}
+	vSmallFiller = filler
+}
+
 func vSmallClassifier(ci int, t float64) *Classifier {
 	c := NewClassifier(t)
+	if vSmallFiller > 0 {
+		var sb strings.Builder
+		for i := 0; i < vSmallFiller; i++ {
+			sb.WriteString(vFillerWord(i))
+			sb.WriteByte(' ')
+		}
+		c.AddContent("License", "Filler", "filler.txt", []byte(sb.String()))
+	}
 	for j, sh := range vSmallCorpusShapes[ci] {
 		c.AddContent("License", fmt.Sprintf("D%d", j), "license.txt", []byte(strings.Join(vShapeWords(sh), " ")))
 	}
